@@ -655,6 +655,58 @@ def work(args):
         return idx, cfgd, seed, mode, [], None, {}, traceback.format_exc()
 
 
+def lite_gate(args):
+    """'In every encoding a handshake packet with a wrong signature establishes nothing': lite carries a signature on the CONNECT request only
+    (a byte stream has no third parties, so the alteration is made by the stream itself): the CONNECT re-encoded with one signature bit
+    flipped / a signature of another length / none at all must start no handler and leave no table entry; re-encoded unchanged (control)
+    the session works."""
+    creds, mut = args
+    try:
+        from nintendo.nex import prudp
+        cfg = ps.Cfg(transport="lite", credentials=creds, fragment_size=50, resend_limit=1, resend_timeout=0.5)
+        hit = []
+        def setup(sim, out):
+            st = out.settings_s
+            def chunker(data):
+                try:
+                    pk = prudp.PRUDPLiteMessage(st).decode(data)
+                except Exception:
+                    return [data]
+                if len(pk) != 1 or pk[0].type != 1 or pk[0].flags & 1 or not pk[0].signature:
+                    return [data]
+                p = pk[0]
+                sig = bytearray(p.signature)
+                if mut is None: pass
+                elif mut[0] == "bit": sig[mut[1] >> 3] ^= 1 << (mut[1] & 7)
+                elif mut[0] == "short": sig = sig[:mut[1]]
+                elif mut[0] == "zero": sig = bytearray(len(sig))
+                p.signature = bytes(sig)
+                hit.append(1)
+                try:
+                    return [prudp.PRUDPLiteMessage(st).encode(p)]
+                except Exception:
+                    return [data]
+            sim.net.chunker = chunker
+        sess = ps.run_session(cfg, 7, [[("c", 0, b"hello"), ("s", 0, b"world")]], lambda sim, r: (lambda tx: [0.004]), phases_gap=0.6, setup=setup)
+        bad = []
+        connected = sess.connect_error is None and sess.handler_started
+        if not hit:
+            bad.append("the scripted alteration never met a CONNECT request (harness)")
+        elif mut is None:
+            if not connected or sess.got.get(("s", 0)) != [b"hello"] or sess.got.get(("c", 0)) != [b"world"]:
+                bad.append("control: a lite CONNECT re-encoded unchanged did not lead to a working session (%s)" % (sess.connect_error,))
+        else:
+            if sess.handler_started:
+                bad.append("lite: a CONNECT request whose signature was altered (%r) established a connection: the handler ran" % (mut,))
+            if getattr(sess, "table_max", 0):
+                bad.append("lite: a CONNECT request whose signature was altered (%r) left %d entries in the server's client table" % (mut, sess.table_max))
+            if sess.connect_error is None:
+                bad.append("lite: the client of a CONNECT request whose signature was altered (%r) completed its handshake" % (mut,))
+        return creds, mut, bad, None
+    except Exception:
+        return creds, mut, [], traceback.format_exc()
+
+
 def run(ctx):
     quick = ctx.tier == "quick"
     ctx.rule = ("twin runs (reference / attacked) of real sessions; attacked = every single-bit flip of every genuine datagram "
@@ -715,6 +767,16 @@ def run(ctx):
                 ctx.distinct.add((idx, i))
             if len(ctx.samples) < 4:
                 ctx.samples.append({"cfg": cfgd, "mode": mode, "genuine_datagrams": stats.get("tx"), "injected": stats.get("inj"), "model_lines": r.get("lines")})
+    muts = [None] + [("bit", b) for b in (range(128) if not quick else sorted(ctx.rng.sample(range(128), 12)))] + [("short", 15), ("short", 0), ("zero",)]
+    with multiprocessing.Pool(min(16, os.cpu_count() or 4)) as pool:
+        for creds, mut, bad, err in pool.imap_unordered(lite_gate, [(c, m) for c in (False, True) for m in muts]):
+            if err:
+                ctx.corr_break("c04-session-harness", "session crashed in the harness", {"traceback": err, "lite_gate": [creds, mut]}); continue
+            ctx.evaluations += 1
+            ctx.distinct.add(("lite-gate", creds, str(mut)))
+            ctx.tag("lite:connect-signature-%s" % ("control" if mut is None else mut[0]))
+            for what in bad:
+                ctx.violation("c04:lite-handshake-gate", what, {"credentials": creds, "mutation": mut, "how": "harness/corr_C04.py lite_gate((credentials, mutation))"})
     ctx.extra["l1_session_diffs"] = ndiff
     if ndiff and not ctx.violations:
         ctx.corr_break("l1-endpoint-correspondence", "real endpoints and the Lean L1 model disagree in %d attacked sessions" % ndiff,
